@@ -402,9 +402,11 @@ func runViaShared(c Case) *h.Result {
 
 func TestC09(t *testing.T) {
 	h.Rule("(reader) batches of 1-16 byte strings, each either bytes biased to syntax bytes or 1-12 fragments of Lisp text (numbers in every radix form, #nA #n( #* #\\ #| #. #+ #: #n= #c #p, strings, |symbols|, quotes, commas, dots, broken UTF-8) with 0-3 byte mutations, read by slip.ReadString in a worker process; a batch is non-trivial when a text contains a syntax byte ( ) \" # ' ` , | ; \\ ; " +
-		"(call-0/1/2/n) every exported function of every package x tuples over a fixed pool of 44 representative objects built afresh for every call: " +
+		"(call-0/1/2/n) every exported function of every package x tuples over a fixed pool of 50 representative objects (incl. the multi-byte strings λ, aλ, 日本語 and the indexes 2 3 4 8) built afresh for every call: " +
 		"0-, 1- and 2-tuples enumerated (2-tuples: a 1/16 slice in quick, all in thorough), 3- to 5-tuples drawn by rapid; macros also with the raw (unquoted) objects as forms; " +
 		"each call is evaluated as a form (FuncInfo.Create + Eval) in a worker process with stdin closed and a scratch cwd; non-trivial when some argument is outside the documented parameter type or beyond the documented parameters; distinct by (function, mode, argument tuple); " +
+		"(bounds-grid) every function that documents a start/end/index/n/count/size/position/offset/radix parameter, called with arguments of the documented types: one sequence-like parameter varied over its value set (strings \"\" abc λ aλ 日本語 λλa, lists, vectors, bit-vector, octets) x the product of up to two bound parameters over -1 0 1 2 3 4 8 nil (so reversed, negative, beyond-the-end and between-character-count-and-byte-length bounds), exhaustive, non-trivial when a bound other than 0/nil is present; " +
+		"(call-typed) rapid: any function with every documented parameter drawn from the value set of its documented type (1/10 from the pool instead), optional and keyword parameters given or not; " +
 		"(format) control strings over the directive alphabet incl. unbalanced and hostile ones (prefix parameters <= 10000, every ~{ with a repetition limit) x pool arguments, non-trivial with >= 1 directive that has a prefix parameter. " +
 		"Oracle: the outcome is a value, a partial read, or a condition of a registered class; it is a fault when the panic is a Go runtime error (nil dereference, index, slice bounds, type assertion, unhashable key, nil map, closed channel, makeslice, divide), a Go value that is not a Lisp object, an argument check of a library below slip, " +
 		"the death of the worker, heap growth beyond 1 GiB, or no answer within 60 heart beats of a fresh solo worker.")
@@ -428,6 +430,7 @@ func TestC09(t *testing.T) {
 		testReader(t)
 	}
 	testCalls(t, fns)
+	testTyped(t, fns)
 	if part("format") {
 		testFormat(t)
 	}
